@@ -45,6 +45,16 @@ def gen_entry_case(rng: Rng, tier, force=None):
         degree, hu = min(degree, 1), max(hu, Fraction(1, 2))
     if entry == "multi_smooth":
         kernel, degree = "epanechnikov", 1
+    own = entry in ("dense_smooth", "dense_mean") and (force.get("own") or rng.random() < 0.35)
+    if own:
+        # a nearly regular grid (relative spacing jitter ~2^-r) smoothed at its OWN points (points=None)
+        r = rng.choice([7, 10, 13, 17, 23])
+        m = rng.choice([17, 33])
+        kk = 4 if m == 17 else 5
+        g = [Fraction(i, 2 ** kk) + Fraction(rng.randint(-1, 1) if 0 < i < m - 1 else 0, 2 ** (kk + r)) for i in range(m)]
+        hu = rng.choice([Fraction(3, 16), Fraction(1, 4)])
+        if kernel == "gaussian":
+            kernel = rng.choice(COMPACT)
     case = dict(kind="entry", entry=entry, dom=dom, kernel=kernel, degree=degree, h=rs(sc * hu), m=m)
     X = lambda v: [rs(lo + sc * t) for t in v]  # noqa: E731
     coefs = [rng.dyadic(-2, 2, 2) for _ in range(degree + 1)]
@@ -74,7 +84,11 @@ def gen_entry_case(rng: Rng, tier, force=None):
             case["poly_obs"] = 0
         case["x"] = X(g)
         case["X"] = [[rs(v) for v in r] for r in rows]
-    if not two_d:
+    if own:
+        case["own"] = True
+        case["q"] = case["x"]
+        case["polyq"] = [rs(poly(t)) for t in g]
+    elif not two_d:
         nq = 4 if entry == "dense_cov" else 5
         qs = sorted(set([g[rng.randrange(m)]] + [Fraction(rng.randint(2, 126), 128) for _ in range(nq)]))[:nq]
         case["q"] = X(qs)
@@ -129,6 +143,8 @@ def _points(case, mapx):
 
     exact = True
     d = {}
+    if case.get("own"):
+        return None, True   # points=None: the entry point evaluates at the sampling points of the data
     for axis, key in enumerate(["q", "q2"][: 2 if case["entry"] == "dense_smooth2d" else 1]):
         ex = mapx(_Fv(case[key]), axis)
         fv = [float(t) for t in ex]
